@@ -214,3 +214,7 @@ def run(tier, V):
     assumptions = ['a global stops when the last command of an execution fails (neatvi; POSIX: on any error)', 'each execution of a/i/c reads its own text block from the input stream',
                    'replacements keep line identity position-wise (C06 model)']
     return cov, assumptions
+
+
+def REPLAY(w):
+    return run_case((build('asan'), w['index']))[:2]
